@@ -277,6 +277,35 @@ def r5_definite_assignment(ctx):
                   "console printing is skipped (or crashes) when no output folder is configured: `print_periodicity` alone has no effect")
 
 
+def r14_ambient_tensor_type(ctx):
+    """'whatever was done earlier in the process': the sampling-based algorithms create their tensors with the ambient default type, so the
+    device manager they all run under *sets* it on every path before handing over (not only when a device switch is asked for) - otherwise
+    a default dtype left by earlier activity in the interpreter decides the result of a seeded run."""
+    ctx.rule("C11.R14", "the device manager sets the default tensor type on every path before its body runs, and restores the default afterwards", 2)
+    f = ctx.ix.func("leaspy.algo.algo_with_device", "AlgorithmWithDeviceMixin._device_manager", "C11.R14")
+    ctx.analysed(f)
+    cfg = CFG(f.node)
+
+    def sets(st):
+        return st is not None and any(isinstance(c, ast.Call) and U(c.func) in ("torch.set_default_tensor_type", "torch.set_default_dtype") for c in header_walk(st))
+    setters = [n for n, st in cfg.stmt.items() if sets(st)]
+    yields = [n for n, st in cfg.stmt.items() if st is not None and any(isinstance(c, (ast.Yield, ast.YieldFrom)) for c in header_walk(st))]
+    if not yields:
+        ctx.unknown("C11.R14", f, f.node, "the device manager no longer yields", construct="type set before the body")
+        return
+    for y in yields:
+        ok = y in setters or cfg.all_paths_pass(cfg.entry, [s_ for s_ in setters if s_ != y], end=y)
+        ctx.check(ok, "C11.R14", f, cfg.stmt[y], "the default tensor type is set on every path to the `yield`",
+                  "a path reaches the `yield` without setting the default tensor type: the run then creates its tensors with whatever default dtype earlier activity "
+                  "left in the process, so the same seeded call gives another result (or aborts on a dtype mismatch)", construct="type set before the body")
+    # restored to the class default on the way out (finally)
+    restore = [n for n in setters if any(isinstance(c, ast.Call) and c.args and U(c.args[0]) == "self._default_algorithm_tensor_type" for c in header_walk(cfg.stmt[n]))
+               and any(cfg.reachable(y, n) for y in yields) and n not in yields]
+    in_finally = any(isinstance(t, ast.Try) and any(cfg.stmt[n] in list(ast.walk(ast.Module(body=t.finalbody, type_ignores=[]))) for n in restore) for t in ast.walk(f.node))
+    ctx.check(bool(restore) and in_finally, "C11.R14", f, cfg.stmt[restore[0]] if restore else f.node, "default tensor type restored in a `finally`",
+              "the default tensor type is not restored in a `finally` after the body: a later run in the process inherits this one's type", construct="type restored afterwards")
+
+
 def r6_history(ctx, cg):
     ctx.rule("C11.R6", "no process-history channel under run (class attributes, module globals, process-wide settings)", 1)
     run = _entry(ctx, BASE, "BaseAlgorithm.run", "C11.R6")
@@ -362,6 +391,7 @@ def rules(ctx):
     r4_logging(ctx, cg, sw)
     r5_definite_assignment(ctx)
     r6_history(ctx, cg)
+    r14_ambient_tensor_type(ctx)
     r7_deepcopy(ctx)
     r10_no_bare_squeeze_in_logging(ctx)
     r13_log_folders_created(ctx)
